@@ -58,7 +58,7 @@ theorem zero_temp_accept (new : Option ℝ) (old thr s : ℝ) (h0 : 0 ≤ thr)
   cases new with
   | none => simp at h
   | some n =>
-    simp only at h
+    simp only [beq_self_eq_true, Bool.not_true, Bool.false_eq_true, if_false] at h
     split at h
     · rename_i hlt
       simp only [Option.some.injEq] at h
